@@ -66,6 +66,9 @@ func ParsePPSNALUnit(data []byte, spsMap map[uint32]*SPS) (*PPS, error) {
 	pps.EntropyCodingModeFlag = reader.ReadFlag()
 	pps.BottomFieldPicOrderInFramePresentFlag = reader.ReadFlag()
 	pps.NumSliceGroupsMinus1 = reader.ReadExpGolomb()
+	if pps.NumSliceGroupsMinus1 > 7 { // Range 0..7 according to ISO/IEC 14496-10 Section 7.4.2.2
+		return nil, fmt.Errorf("num_slice_groups_minus1 %d > 7", pps.NumSliceGroupsMinus1)
+	}
 
 	if pps.NumSliceGroupsMinus1 > 0 {
 		pps.SliceGroupMapType = reader.ReadExpGolomb()
